@@ -128,19 +128,22 @@ struct Config {
   unsigned padMax = 0;      // maximum padding before a fresh block, in 16-byte units
   unsigned baseShift = 0;   // offset of the first block inside the slot, in 16-byte units
   bool shuffleRecycle = false; // pick recycled blocks in seeded order instead of LIFO
+  bool scribbleFree = false;   // a freed block is overwritten at once (as MALLOC_PERTURB_ and allocator bookkeeping do)
 };
 void begin(const Config &c);
 void end();
-struct Counters { uint64_t allocs = 0, fresh = 0, recycled = 0, bytes = 0, overflowToMalloc = 0, slot = 0; };
+struct Counters { uint64_t allocs = 0, fresh = 0, recycled = 0, bytes = 0, overflowToMalloc = 0, slot = 0, scribbled = 0; };
 extern Counters counters;
 bool available();   // false in sanitizer builds (arena disabled)
 } // namespace heap
 
 //---------------------------------------------------------------------------------------------
-// Stack: fill `bytes` below the current frame from `seed`, shift by `shift` bytes, then call f.
+// Stack: f runs on a private stack at a fixed address whose top `bytes` are filled from `seed`
+// (everything below reads as zero), starting `shift` bytes below the top.
 //---------------------------------------------------------------------------------------------
 enum StackMode { STACK_CLEAN = 0, STACK_ZERO, STACK_ONES, STACK_PRNG, STACK_POINTERISH, STACK_NUM_MODES };
 void callOnDirtyStack(int mode, size_t bytes, uint64_t seed, size_t shift, const std::function<void()> &f);
+void disableAslrOnce(char **argv);     // re-executes the process once with ADDR_NO_RANDOMIZE
 
 //---------------------------------------------------------------------------------------------
 // Running code that may call exit(), throw, or crash.
